@@ -20,7 +20,7 @@
                       i.e. the FULL statement holds on every page whose rendered header / heading rows
                       equal the reserved / budgeted ones (no positive component in check_c03's
                       decomposition). *)
-From Coq Require Import List ZArith QArith Bool.
+From Coq Require Import List ZArith QArith Bool Lia.
 From V Require Import Str Num Doc Broadcast Paginate PaginateProofs BudgetProofs.
 Import ListNotations.
 Local Open Scope Z_scope.
